@@ -61,6 +61,7 @@ for _n in sorted(os.listdir(os.path.join(REPO, "tests/asm"))):
 for _n in sorted(os.listdir(os.path.join(REPO, "tests/x"))):
     if _n.endswith(".x") and b"proc main" in rd(os.path.join(REPO, "tests/x", _n)): X_ACC.setdefault("shipped:" + _n, rd(os.path.join(REPO, "tests/x", _n)).decode("latin1"))
 LISTING_OPT = {"hexasm": ["--instrs", "--tokens"], "xcmp": ["-S", "--tokens", "--tree"]}
+EXTRA_OPT = {"hexasm": [], "xcmp": ["--memory-info"]}
 
 
 EMPTY_IMAGE_OK = ("empty-file", "comment-only", "blank-lines", "labels-only")
@@ -103,6 +104,11 @@ def cases():
                         out.append(dict(kind="compile", tool=tool, src=name, text=src, ok=ok, opt=opt, pos=pos, pre=pre, ext=ext))
             for lo in LISTING_OPT[tool]:
                 out.append(dict(kind="listing", tool=tool, src=name, text=src, ok=ok, opt=lo, pos="after", pre=False, ext=ext))
+            # options that add a report but still emit the binary: same status, same binary at the same place
+            for extra in EXTRA_OPT[tool]:
+                for opt in (None, "-o"):
+                    for epos in ("first", "last"):
+                        out.append(dict(kind="compile", tool=tool, src=name, text=src, ok=ok, opt=opt, pos="after", pre=False, ext=ext, extra=extra, extra_pos=epos))
     # exit values through hexsim and xrun
     for v in (0, 1, 7, 255, 256, 257, -1, -255, 65536 + 3):
         for inp in (b"", b"A"):
@@ -154,6 +160,8 @@ def exec_case(i, c):
                 args += [c["opt"], target, srcname]
             else:
                 args += [srcname, c["opt"], target]
+            if c.get("extra"):
+                args = [args[0], c["extra"]] + args[1:] if c["extra_pos"] == "first" else args + [c["extra"]]
             before = listing(d)
             rc, so, se = run(args, d)
             after = listing(d)
@@ -324,7 +332,7 @@ def main():
     n = len(cs)
     return rep.finish(states=n, transitions=n, validated=n, evaluations=n, nontrivial=n,
                       rule="full product tool x source (3 accepted + one per rejection class + missing file) x {no option, -o, --output} x {option before, after the source} x {target absent, present}, "
-                           "listing-only modes, exit values {0,1,7,255,256,257,-1,-255,65539} x {no input, input}, xrun vs xcmp+hexsim (inputs with bytes >= 0x80), every --max-cycles 1..69 around three runs, images of 1000..199000 words and X programs of 1000..50000 statements whose status must be the exit value; every combination is a distinct invocation",
+                           "listing-only modes, report options that still emit (--memory-info first/last), exit values {0,1,7,255,256,257,-1,-255,65539} x {no input, input}, xrun vs xcmp+hexsim (inputs with bytes >= 0x80), every --max-cycles 1..69 around three runs, images of 1000..199000 words and X programs of 1000..50000 statements whose status must be the exit value; every combination is a distinct invocation",
                       bounds={"cases": n}, assumptions=["the executables are those CMake builds from the working tree (RelWithDebInfo)", "status of a killed or hung tool counts as abnormal termination"],
                       trusted=["python3 subprocess", "cmake/ninja build of /repo"])
 
